@@ -12,6 +12,12 @@
  *   X <key> <hash>                           constmap.c hash()
  *   B <c> <s> <r> <cd>                       byte_rchr(s,len,c); cd = !case_diffb(s,len,s2) with s2 = s case-flipped
  *   S <me> <env> <locals> <ph> <vdoms> <started> <n> {M <todo> <info> <loc> <rem> | H|E <5 files>}   real main()
+ *       M: one message injected and preprocessed; "! ! !" = the daemon went back to sleep without asking qmail-clean
+ *          to remove todo/<id> (todo_do took its `goto fail` exit); "? ? ?" = timeout / daemon gone
+ *       H: the five control files are rewritten, SIGHUP is delivered while the daemon is blocked in select(), and
+ *          the daemon is seen blocked in select() again (it passed the loop top)     E: files rewritten, no signal
+ *   D <sender> <recip-record> <started> <chan> <delnum> <fn> <sender-sent> <recip-sent>   real main() with concurrency 1:
+ *          the delivery command qmail-send wrote to the spawner pipe for one message (VERP through del_start)
  * stdin cases: the same lines without the result fields. */
 #include "hcommon.h"
 #include <fcntl.h>
@@ -183,7 +189,8 @@ static int rd_clean, wr_clean;           /* our ends of qmail-send's fd 5 / fd 6
 static hbuf reqbuf;
 
 /* act as qmail-clean until (want_id: "todo/<id>" was requested and *not yet answered*) or (want_id == 0: child idle).
- * returns 1 on success, 0 on timeout / child death */
+ * returns 1 on success, 2 when want_id was never requested and the child is blocked in select() again (the write to the
+ * trigger fifo made it runnable before write() returned, so this is after its todo run), 0 on timeout / child death */
 static int service(pid_t pid, unsigned long want_id, double timeout) {
   double t0 = nowf();
   int idle_seen = 0;
@@ -211,7 +218,11 @@ static int service(pid_t pid, unsigned long want_id, double timeout) {
     if (r > 0) return 0;                                  /* hangup: child gone */
     int st = child_idle(pid);
     if (st < 0) return 0;
-    if (!want_id && st == 1) { if (++idle_seen >= 2) return 1; } else idle_seen = 0;
+    if (st == 1) {
+      ++idle_seen;
+      if (!want_id && idle_seen >= 2) return 1;
+      if (want_id && idle_seen >= 4) return 2;            /* asleep again, todo/<id> was never handed to qmail-clean */
+    } else idle_seen = 0;
     if (nowf() - t0 > timeout) return 0;
   }
 }
@@ -268,7 +279,16 @@ static void do_S(const files *F0, step *st, int nst) {
       int tf = open(path, O_WRONLY | O_NONBLOCK);
       if (tf >= 0) { if (write(tf, "", 1) != 1) {} close(tf); }
       fputs(" M ", h_out); h_hex(s->todo.p, s->todo.n);
-      if (!service(pid, id, 20.0)) { fputs(" ! ! !", h_out); started = 0; break; }
+      int sv = service(pid, id, 20.0);
+      if (!sv) { fputs(" ? ? ?", h_out); started = 0; break; }
+      if (sv == 2) {                                       /* goto fail: the message stays in todo/; take it away */
+        static const char *sub[] = { "info", "local", "remote" };
+        fputs(" ! ! !", h_out);
+        for (int q = 0; q < 3; q++) { snprintf(path, sizeof path, "%s/%s/%lu/%lu", qdir, sub[q], id % auto_split, id); unlink(path); }
+        snprintf(path, sizeof path, "%s/todo/%lu", qdir, id); unlink(path);
+        snprintf(path, sizeof path, "%s/mess/%lu/%lu", qdir, id % auto_split, id); unlink(path);
+        continue;
+      }
       out_qfile("info", id); out_qfile("local", id); out_qfile("remote", id);
       snprintf(path, sizeof path, "%s/todo/%lu", qdir, id); unlink(path);
       snprintf(path, sizeof path, "%s/mess/%lu/%lu", qdir, id % auto_split, id); unlink(path);
@@ -364,6 +384,9 @@ static void add_line(hbuf *b, const char *l, int noise) {
   badd(b, l, strlen(l));
   if (noise && h_below(6) == 0) badd(b, " \t ", 1 + h_below(3));
   badd(b, "\n", 1);
+}
+static void copy_files(files *d, const files *s) {
+  for (int i = 0; i < NF; i++) { hbuf_reset(&d->b[i]); d->present[i] = s->present[i]; badd(&d->b[i], s->b[i].p, s->b[i].n); }
 }
 static void chop_final_newline(hbuf *b) { if (b->n && h_below(5) == 0) b->n--; }
 
@@ -464,6 +487,18 @@ static void gen_todo(hbuf *t) {
     badd(t, "T", 1); badd(t, r, l); badd(t, "", 1);
   }
   if (h_below(6) == 0) badd(t, "Tpartial@a", 10);      /* unterminated tail: ignored */
+}
+
+/* a todo file that todo_do must refuse: gen_todo plus one empty record or one record of an unknown type, inserted at
+ * the start or right after one of the NULs (so every other record stays what it was) */
+static void gen_todo_bad(hbuf *t) {
+  static hbuf g; static const char *bad[] = { "", "Zjunk", "tu@a", "\377x", "fsender@a", " Tu@a" };
+  hbuf_reset(&g); gen_todo(&g);
+  size_t nn = 0; for (size_t i = 0; i < g.n; i++) if (!g.p[i]) nn++;
+  size_t k = h_below(nn + 1), pos = 0;
+  for (size_t i = 0; i < g.n && k; i++) if (!g.p[i]) { k--; pos = i + 1; }
+  const char *b = bad[h_below(6)];
+  hbuf_reset(t); badd(t, g.p, pos); badd(t, b, strlen(b) + 1); badd(t, g.p + pos, g.n - pos);
 }
 
 static const char *fixed_cfg[3][NF] = {
@@ -791,6 +826,39 @@ int main(int argc, char **argv) {
     gen_files(&steps[ns].F, 0); steps[ns].kind = h_below(6) ? 'H' : 'E'; ns++;
     int m2 = 1 + h_below(2);
     for (int i = 0; i < m2; i++) { steps[ns].kind = 'M'; gen_todo(&steps[ns].todo); ns++; }
+    do_S(&F, steps, ns);
+  }
+  amode = 0;
+
+  /* (12) seeded, own stream: the real main() with the control files edited AFTER a HUP was served and before the next
+   * message (H f1; E f2; M - the daemon must use f1), edits before any HUP, a second HUP picking up the pending edit,
+   * and messages todo_do must refuse (empty record / unknown record type: left in todo/, nothing handed on) */
+  h_seed(seed * 1000003ull + 17 * shard + 700001);
+  int nhscen = nscen / 4 + 2;
+  for (int c = 0; c < nhscen; c++) {
+    if ((c % nshards) != shard) continue;
+    amode = (c / nshards) & 1;
+    gen_files(&F, 1);
+    if (!F.present[0] && !F.present[2]) F.present[2] = 1;
+    int ns = 0, badleft = h_below(3) == 0;
+#define STEP_M() do { steps[ns].kind = 'M'; if (badleft && h_below(3) == 0) { gen_todo_bad(&steps[ns].todo); badleft = 0; } \
+                      else gen_todo(&steps[ns].todo); ns++; } while (0)
+#define STEP_F(k) do { gen_files(&steps[ns].F, 0); steps[ns].kind = (k); ns++; } while (0)
+    if (h_below(2)) STEP_M();
+    if (h_below(4) == 0) { STEP_F('E'); STEP_M(); }        /* edit before any HUP: ignored */
+    STEP_F('H'); STEP_F('E'); STEP_M();                     /* HUP served, files edited afterwards: the HUP-time files count */
+    if (h_below(2)) STEP_M();
+    if (h_below(2)) {
+      if (h_below(2)) { STEP_F('H'); } else {               /* HUP without touching the files: picks up the pending edit */
+        int lf = ns - 1; while (steps[lf].kind == 'M') lf--;
+        copy_files(&steps[ns].F, &steps[lf].F); steps[ns].kind = 'H'; ns++;
+      }
+      STEP_M();
+      if (h_below(2)) { STEP_F('E'); STEP_M(); }
+    }
+    if (badleft) { steps[ns].kind = 'M'; gen_todo_bad(&steps[ns].todo); ns++; STEP_M(); }
+#undef STEP_M
+#undef STEP_F
     do_S(&F, steps, ns);
   }
   amode = 0;
